@@ -8,6 +8,19 @@ ID = "C08"
 PROPS_FILE = "Props/C08.v"
 COQ_TARGETS = ["Harness/H08.vo"]
 ALLOWED_AXIOMS = []
+# second tie (translator): coq/Gen/Core.v is regenerated from the source text of C.REPO on every run and
+# coq/Tie/T08.v proves generated definition = hand model (harness/translate/py2coq_core.py)
+EXTRA_PROPS = ["Tie/T08.v"]
+
+
+def prebuild(ctx):
+    import os
+    import sys
+    sys.path.insert(0, os.path.join(C.VERIF, "harness", "translate"))
+    import py2coq_core
+    py2coq_core.prebuild(ctx, C, ["MaxEvaluations.shouldTerminate"])
+
+
 META = {
     "level_text": "Machine-checked proof (Coq) about a literal model of Algorithm.run / MaxEvaluations / Algorithm.evaluate_all: for every state type, "
                   "step function and hooks that never decrease nfe, run(N) terminates (fuel N suffices), stops at the FIRST step boundary at which the "
